@@ -250,3 +250,14 @@ Theorem C02_exchange_fidelity_any_folding_any_chunking : forall cb g r (cuts : l
   exists t, c_txs (fst (cp_run cb g connp_new (OpOpen :: map OpReqData chunks))) = [Some t] /\ wr_reported (sg_mask t) r.
 Proof. exact sg_request_fold_chunking_reported. Qed.
 Print Assumptions C02_exchange_fidelity_any_folding_any_chunking.
+
+(* ---- ... and for n pipelined requests (known methods), any chunking, chunks spanning request boundaries: each transaction reports its own request
+        (the statement wr_exchange_fidelity_full with the premise that excludes the listed extension-method finding and the per-request limit) ---- *)
+Require Import Htp.Proof.PSegPipe.
+Theorem C02_pipelined_fidelity : forall cb g (rs : list wr_request) (chunks : list bytes),
+  wr_all_ok cb -> g_allow_space_uri g = false -> (g_max_tx g = 0 \/ length rs < g_max_tx g)%nat ->
+  Forall (fun r => sg_req_ok g r = true) rs -> Forall (fun x => x <> []) chunks -> concat chunks = concat (map wr_request_wire rs) ->
+  Forall2 (fun slot r => exists t, slot = Some t /\ wr_reported (sg_mask t) r)
+          (c_txs (fst (cp_run cb g connp_new (OpOpen :: map OpReqData chunks)))) rs.
+Proof. intros cb g rs chunks H1 H2 H3 H4 H5 H6. exact (proj1 (sg_pipeline_fidelity cb g rs chunks H1 H2 H3 H4 H5 H6)). Qed.
+Print Assumptions C02_pipelined_fidelity.
